@@ -41,7 +41,14 @@ def _emission_guarded(R, rid, f, emit_calls, key):
                     [f.loc()])
         return None
     add = adds[0]
-    fa = PR.facts(f, relevant=lambda a: _is_distinct_flag(a) or (a.get("kind") == "call" and a.get("call") is add), tag="distinct")
+    def _is_filter_option(a):
+        # `let filter = if distinct { Some(DistinctValues::new()) } else { None }; .. if let Some(f) = filter.as_mut()`: the flag lives on as
+        # the variant of an Option around the set
+        if a.get("kind") != "discr" or not isinstance(a.get("place"), dict):
+            return False
+        return any(tag in f.local_ty(a["place"]["l"]) for tag in ("DistinctValues", "FirstOccurrenceSet")) or \
+            (a.get("call") is not None and any(tag in " ".join(a["call"].func.get("res_targs") or a["call"].targs or []) for tag in ("DistinctValues",)))
+    fa = PR.facts(f, relevant=lambda a: _is_distinct_flag(a) or _is_filter_option(a) or (a.get("kind") == "call" and a.get("call") is add), tag="distinct")
     if not fa.ok:
         R.violation(rid, key + "|unanalysable", "%s: too many paths to establish the DISTINCT guard" % f.path, [f.loc()])
         return None
